@@ -22,6 +22,7 @@ func init() {
 }
 
 func runC35(c *core.Ctx) {
+	accessorPairs(c, "C35.accessor-keys", 10, pkSCM)
 	gsc := eng.Obj(c, pkSCM, "GetSideChain")
 	gsa := eng.Obj(c, pkSCM, "getSideChainApply")
 	gus := eng.Obj(c, pkSCM, "getUpdateSideChain")
